@@ -75,7 +75,8 @@ Section RoundTrip.
      first record fixes *)
   Definition fixes_scheme (sch : option scheme) (s : scheme) (rs : list mrec) : Prop :=
     sch = Some s \/
-    (sch = None /\ exists r1 rest, rs = r1 :: rest /\ s = no_restrictions (record_names r1)).
+    (sch = None /\ exists r1 rest, rs = r1 :: rest /\ s = no_restrictions (record_names r1) /\
+                                   names_writable (record_names r1) = true).
 
   Definition start_writer (h : header) (sch : option scheme) (m : mode) (s : scheme) : writer :=
     with_out (mk_writer h sch m tt (validate_errs registry (hrecs h) sch)) s
@@ -91,14 +92,14 @@ Section RoundTrip.
         wr_entries := w_out w'; wr_scheme := w_scheme w' |}).
   Proof.
     intros Hs Hp Hfix Ht. unfold FileIO.write_file. rewrite (writer_init_fwd registry h m sch l Hs Hp).
-    destruct Hfix as [->|(-> & r1 & rest & -> & ->)].
+    destruct Hfix as [->|(-> & r1 & rest & -> & -> & Hw)].
     - assert (E : mk_writer h (Some s) m tt (validate_errs registry (hrecs h) (Some s)) = start_writer h (Some s) m s).
       { unfold start_writer, with_out, mk_writer. cbn [w_header w_scheme w_mode w_out]. now rewrite Ht. }
       rewrite E. destruct (writer_adds sem (start_writer h (Some s) m s) rs) as [os w']. reflexivity.
     - set (s := no_restrictions (record_names r1)) in *.
       set (w0 := mk_writer h None m tt (validate_errs registry (hrecs h) None)).
       assert (E : writer_adds sem w0 (r1 :: rest) = writer_adds sem (start_writer h None m s) (r1 :: rest)).
-      { cbn [writer_adds]. rewrite (iadd_no_scheme sem w0 r1 eq_refl Ht). fold s.
+      { cbn [writer_adds]. rewrite (iadd_no_scheme sem w0 r1 eq_refl Hw Ht). fold s.
         assert (Ew : with_out w0 s (w_out w0 ++ [join [TAB] (s_names s)]) = start_writer h None m s).
         { unfold start_writer, w0. rewrite mk_writer_out. cbn [column_entries]. now rewrite app_nil_r. }
         now rewrite Ew. }
@@ -115,6 +116,23 @@ Section RoundTrip.
   Proof.
     revert vts. induction os as [|o os IH]; intros [|vt vts] H; try discriminate; [reflexivity|].
     cbn [map] in H. injection H as H0 H. cbn [flat_map map]. rewrite H0. cbn [app]. now rewrite (IH vts H).
+  Qed.
+
+  (* a scheme-less writer that accepted its first record found its column
+     names writable (otherwise `writer += record` raises ValueError) *)
+  Lemma clean_first_writable (h : header) m r1 rest :
+    h_scheme registry (hrecs h) = Ok None ->
+    wr_clean (write_file h (Some m) (r1 :: rest)) = true ->
+    names_writable (record_names r1) = true.
+  Proof.
+    intros Hs Hclean. unfold wr_clean, FileIO.write_file in Hclean.
+    destruct (writer_init registry h (Some m)) as [lg [w|e]] eqn:EI; [|discriminate].
+    destruct (writer_init_ok registry h m lg w EI) as (sch' & Hs' & _ & ->).
+    rewrite Hs in Hs'. injection Hs' as <-.
+    destruct (names_writable (record_names r1)) eqn:Hw; [reflexivity|].
+    cbn [writer_adds] in Hclean.
+    rewrite (iadd_refused sem (mk_writer h None m tt (validate_errs registry (hrecs h) None)) r1 eq_refl Hw) in Hclean.
+    destruct (writer_adds sem _ rest) as [os w']. cbn in Hclean. discriminate.
   Qed.
 
   (* ----- first write: from "clean" to the entries ----- *)
@@ -340,7 +358,7 @@ Section RoundTrip.
     set (recs := hrecs h) in *. set (verrs := validate_errs registry recs sch) in *.
     (* the scheme the reader settles on is s *)
     assert (Hrs : reader_scheme sch (s_names s) = s).
-    { destruct Hfix as [->|(-> & r1 & rest & -> & Es)].
+    { destruct Hfix as [->|(-> & r1 & rest & -> & Es & _)].
       - unfold reader_scheme. now rewrite (h_scheme_not_norestr registry recs s Hsch).
       - unfold reader_scheme. rewrite <- Hfirst. now rewrite <- Es. }
     (* the lines of the file *)
@@ -375,11 +393,11 @@ Section RoundTrip.
     { subst rt. unfold round_trip_of. cbn [rt_read]. fold w1. unfold read_path, read_text. destruct translate; now rewrite <- Hlines. }
     (* second write *)
     assert (Hfix2 : fixes_scheme sch s (rereads m n0 rows)).
-    { destruct Hfix as [->|(-> & r1 & rest & -> & Es)]; [now left|right]. split; [reflexivity|].
+    { destruct Hfix as [->|(-> & r1 & rest & -> & Es & Hw)]; [now left|right]. split; [reflexivity|].
       destruct vts as [|vt1 vts1]; [inversion HF|].
       subst rows. unfold rows_of in *. cbn [map] in Hgood |- *.
       pose proof (Forall_inv Hgood) as Hg1. destruct Hg1 as (Hn1 & _ & _).
-      cbn [rereads]. eexists _, _. split; [reflexivity|]. rewrite reread_names, <- Hn1, <- Hfirst. exact Es. }
+      cbn [rereads]. eexists _, _. split; [reflexivity|]. rewrite reread_names, <- Hn1, <- Hfirst. split; [exact Es|exact Hw]. }
     pose proof (rereads_accepted s m rows n0 Ht ND Hgood Hren) as HF2.
     destruct (reread_vts_spec m rows n0) as [Hv1 Hv2].
     destruct (clean_write (mk_header m recs verrs) m sch s (rereads m n0 rows) l (reread_vts m n0 rows)
